@@ -53,7 +53,13 @@ pub fn run(tier: &str, seed: u64, out: &mut Out) {
         "<c><v slot:x=\"y\" slot:z>{{y}}{{z}}</v></c>".into(),
         "<template name=\"t\">{{a}}</template><template is=\"t\" data=\"{{ a: 1, ...b }}\"/><template is=\"t\" data=\"{{ {a} }}\"/>".into(),
         "<v a=\"{{ {a: 1}.a }}\" b=\"{{ [1][0] }}\" c=\"{{ 'x'.length }}\" e=\"{{ f(1)(2) }}\"/>".into(),
-        "<v a='{{ \"q\\'\\\"\\n\\u0041\" }}'>\"&amp;&lt;</v>".into(),        // static-string attributes whose decoded value contains a well-formed character reference
+        "<v a='{{ \"q\\'\\\"\\n\\u0041\" }}'>\"&amp;&lt;</v>".into(),        // adjacent literal pieces whose boundary would read as a binding start; the empty literal; comments between texts
+        "<div>{{ \"a{\" + \"{b\" }}</div><v a=\"{{ 'x{' + '{' }}\" b=\"{{ 'p{' + '' + '{q' }}\"/>".into(),
+        "<div>{{ \"\" }}</div><v a=\"{{ '' }}\">{{ '' }}{{a}}</v>".into(),
+        "<wxs module=\"m\">module.exports = { s: \"</wxsx>\" }</wxs>{{m.s}}".into(),
+        "<div>a{<!-- c -->{b}}</div>".into(),
+        "<div>{{a}}<!-- c -->{{b}}</div><div>x<!-- c -->y</div><div>{<!-- c -->a}<!-- d --></div>".into(),
+        // static-string attributes whose decoded value contains a well-formed character reference
         "<template name=\"cell-&amp;lt;b&amp;gt;\">T{{a}}</template><template is=\"cell-&amp;lt;b&amp;gt;\" data=\"{{ a: 1 }}\"/>".into(),
         "<c generic:g=\"x&amp;lt;y\" wx:for=\"{{l}}\" wx:key=\"k&amp;amp;\"><v slot:x=\"y\">{{y}}</v></c><include src=\"./q&amp;amp;r\"/>".into(),
     ];
